@@ -12,6 +12,40 @@ from . import canon, gen
 from .core import frac, call_real
 
 INT_GATES = ["cx", "cz", "cy", "ch", "ecr"]
+_EXPLICIT = set(gen.FIXED_2Q + gen.PARAM_2Q + ["move"]) - {"rzx"}   # names with an explicit decomposition (exactness: C02)
+KAK_FAMS = ["rzx", "xx_plus_yy", "xx_minus_yy", "unitary", "blk", "blk"]
+
+
+def gen_kak(rng, tier):
+    """two blocks joined by one or two gates that go through the KAK path (rzx, xx+-yy, unitary, and a user-defined gate class whose
+    instances share name and (empty) parameter list but not their unitary)"""
+    k = rng.randint(1, 2)
+    nq = 2 * k + 2
+    A, B = list(range(k + 1)), list(range(k + 1, nq))
+
+    def kak_gate(qs):
+        fam = rng.choice(KAK_FAMS)
+        g = {"name": fam, "qubits": qs}
+        if fam == "rzx":
+            g["params"] = [rng.choice([0.7, 0.7, 1.9, -0.4])]
+        elif fam in ("xx_plus_yy", "xx_minus_yy"):
+            g["params"] = [rng.choice([0.7, 2.1]), rng.choice([0.0, 0.3])]
+        elif fam == "unitary":
+            g["params"] = [rng.randrange(4), 2]
+        elif fam == "blk":
+            g["params"] = [rng.choice(["cx", "cz", "swap", "iswap", "dcx", "0.7"])]
+        return g
+    instrs = []
+    for blk in (A, B):
+        for a, b in zip(blk, blk[1:]):
+            instrs.append({"name": "cx", "qubits": [a, b]})
+    for _ in range(rng.randint(1, 2)):
+        instrs.insert(rng.randint(0, len(instrs)), kak_gate([rng.choice(A), rng.choice(B)]))
+    for blk in (A, B):
+        for a, b in zip(blk, blk[1:]):
+            instrs.append({"name": "cx", "qubits": [b, a]})
+    return {"nq": nq, "instrs": instrs, "seed": rng.randrange(1 << 30), "max_gamma": 1e6, "max_backjumps": None, "gate_lo": True,
+            "wire_lo": rng.random() < 0.5, "width": k + 1, "exact": False}
 
 
 def gen_dense(rng, tier, exact=True):
@@ -159,6 +193,7 @@ def _params(payload):
 def canon_output(qc, out, meta):
     """Map the returned circuit back onto the input instruction list."""
     items = []
+    bases = []
     j = 0
     data = qc.data
     for inst in out.data:
@@ -174,6 +209,15 @@ def canon_output(qc, out, meta):
             if oq != qs:
                 return {"mismatch": f"cut gate {j} on qubits {qs}, original on {oq}"}
             items.append(["cut", j])
+            b = inst.operation.basis
+            # fingerprint of the decomposition attached to the cut gate (a function of the gate alone, whatever was decomposed before)
+            bases.append([[round(float(c), 9) for c in b.coeffs], [[[o.name for o in side] for side in m] for m in b.maps]])
+            if data[j].operation.name not in _EXPLICIT:
+                from .oracles import channel
+                err = float(np.abs(channel.basis_ptm(b) - channel.ptm2_gate(data[j].operation)).max())
+                if err > 1e-7:
+                    return {"mismatch": f"the basis attached to cut gate {j} ({data[j].operation.name}) is not a decomposition of that gate: "
+                                        f"max transfer-matrix error {err:.2e}"}
         else:
             if oq != qs or data[j].operation != inst.operation:
                 return {"mismatch": f"instruction {j} changed"}
@@ -182,7 +226,7 @@ def canon_output(qc, out, meta):
     if j != len(data):
         return {"mismatch": "instructions missing from output"}
     return {"items": items, "cuts": [[c[0], int(c[1])] for c in meta["cuts"]], "overhead": float(meta["sampling_overhead"]),
-            "minimum_reached": bool(meta["minimum_reached"])}
+            "minimum_reached": bool(meta["minimum_reached"]), "bases": bases}
 
 
 def run_real(payload, with_stats=False):
